@@ -62,7 +62,7 @@ static Bytes mutate(const Bytes& s, Rng& r) {
     for (u32 k = 0; k < rounds; ++k) {
         if (b.empty()) { b = r.bytes(1 + r.below(8)); continue; }
         u32 pos = r.chance(1, 2) ? r.below((u32)std::min<size_t>(b.size(), 64)) : r.below((u32)b.size());
-        switch (r.below(10)) {
+        switch (r.below(11)) {
             case 0: b[pos] ^= (u8)(1u << r.below(8)); break;
             case 1: { static const u8 sp[] = {0, 1, 0x7f, 0x80, 0xff, 0x40, 0xc0, 0x0f, 0xf0}; b[pos] = sp[r.below(9)]; break; }
             case 2: { // treat a 1/2/4 byte window as a length/offset/count field
@@ -75,6 +75,9 @@ static Bytes mutate(const Bytes& s, Rng& r) {
             case 6: { Bytes t = r.bytes(1 + r.below(40)); b.insert(b.end(), t.begin(), t.end()); break; }
             case 7: b.resize(pos); break;
             case 8: b[pos] = r.byte(); break;
+            case 9: { if (r.chance(1, 2)) { u32 w = 1 + r.below(8); for (u32 i = 0; i < w && pos + i < b.size(); ++i) b[pos + i] = r.chance(1, 2) ? 0xff : 0; break; }
+                // a DNS-style 14-bit compression pointer designating the end of the buffer and its neighbourhood (also relative to a 12/20/28/42-byte prefix)
+                if (pos + 1 < b.size()) { static const int hdr[] = {0, 12, 8 + 12, 20 + 8 + 12, 14 + 20 + 8 + 12, 40 + 8 + 12}; long base = (long)b.size() - hdr[r.below(6)]; long tgt = base + (long)r.below(5) - 2; if (tgt < 0) tgt = 0; b[pos] = (u8)(0xc0 | ((tgt >> 8) & 0x3f)); b[pos + 1] = (u8)tgt; } break; }
             default: { u32 w = 1 + r.below(8); for (u32 i = 0; i < w && pos + i < b.size(); ++i) b[pos + i] = r.chance(1, 2) ? 0xff : 0; }
         }
         if (b.size() > 65535) b.resize(65535);
